@@ -430,6 +430,12 @@ def replay(case):
     if case.get("kind") == "placement":
         from checks import C02_placement
         return C02_placement.replay_placement(case)
+    if case.get("kind") == "stacked_jacobian":
+        from checks import C02_stacked
+        return C02_stacked.replay_stacked(case)
+    if case.get("kind") == "steady_jacobian":
+        from checks import C02_stacked
+        return C02_stacked.replay_steady_jacobian(case)
     ad, adp = _load()
     if case["kind"] == "reject":
         fname = case["function"]
@@ -529,8 +535,9 @@ def main(run):
         C02_placement = None
     if C02_placement is not None:
         C02_placement.run_layers(run)
-    run.outside += ["stacked-time Jacobian assembly (scipy sparse rejects object data): its entries come from the same "
-                    "Atom rules and ArrayMap code decided here; time-stacking offsets and terminate_jacobian not covered",
+    from checks import C02_stacked
+    C02_stacked.run_layers(run)
+    run.outside += [
                     "smoothness of arbitrary user context functions (finite differences)"]
     run.extra["exhaustive"] = True
 
